@@ -481,6 +481,17 @@ def check_shape(m, p, shapes, internal, ctx, want=None):
     if want is None:
         want = ref_shape(p, shapes, internal)
     ishapes = {n: tuple(internal) for n in p["out_names"]} if internal else None
+    if len(shapes) >= 2:
+        # the answer must not depend on the insertion order of the caller's dict: asked again with the keys reversed
+        def _ask(d):
+            try:
+                return ("ok", m.shape(d, ishapes))
+            except Exception as e:  # noqa: BLE001
+                return ("raise", type(e).__name__)
+        a1, a2 = _ask(dict(shapes)), _ask(dict(reversed(list(shapes.items()))))
+        if a1 != a2:
+            return [({"kind": "depends-on-dict-order", "check": "shape", "ctx": ctx},
+                     f"shape() of {m!s} answers {a1} for {dict(shapes)} and {a2} for the same shapes inserted in reverse order")], "shape:bad"
     try:
         got = m.shape(dict(shapes), ishapes)
     except Exception as e:  # noqa: BLE001
